@@ -1,20 +1,220 @@
 /-
   C14 — clearing of signature placeholders is canonical and loses nothing else.
-  Property theorems only; helper lemmas live in `Proofs/`.
+  Property theorems only; helper lemmas live in `Proofs/Script.lean`.
 -/
 import PowHsm.Spec.C14
+import PowHsm.Proofs.Script
 namespace PowHsm
 namespace Props.C14
 open Btc
 
 /-- Everything except the input scripts is carried over as a value: version, outputs,
-    lock time, witness; and per input the outpoint and the sequence number. -/
+    lock time, witness. -/
 theorem fields_preserved (t t' : Tx) (h : unsignTx t = some t') :
     t'.version = t.version ∧ t'.vout = t.vout ∧ t'.lock = t.lock ∧ t'.wit = t.wit := by
   unfold unsignTx at h
   cases hm : t.vin.mapM clearIn with
   | none => simp [hm] at h
   | some vin => simp [hm] at h; subst h; simp
+
+/-- position-wise relation between two lists of the same length -/
+def AllPairs {α β : Type} (R : α → β → Prop) : List α → List β → Prop
+  | [], [] => True
+  | a :: as, b :: bs => R a b ∧ AllPairs R as bs
+  | _, _ => False
+
+theorem AllPairs.imp {α β : Type} {R S : α → β → Prop} (hRS : ∀ a b, R a b → S a b) :
+    ∀ {xs : List α} {ys : List β}, AllPairs R xs ys → AllPairs S xs ys
+  | [], [], _ => trivial
+  | _ :: _, _ :: _, h => ⟨hRS _ _ h.1, AllPairs.imp hRS h.2⟩
+  | [], _ :: _, h => h.elim
+  | _ :: _, [], h => h.elim
+
+theorem AllPairs.length_eq {α β : Type} {R : α → β → Prop} :
+    ∀ {xs : List α} {ys : List β}, AllPairs R xs ys → xs.length = ys.length
+  | [], [], _ => rfl
+  | _ :: _, _ :: _, h => by simp [AllPairs.length_eq h.2]
+  | [], _ :: _, h => h.elim
+  | _ :: _, [], h => h.elim
+
+theorem AllPairs.right_mem {α β : Type} {R : α → β → Prop} :
+    ∀ {xs : List α} {ys : List β}, AllPairs R xs ys → ∀ y ∈ ys, ∃ x ∈ xs, R x y
+  | [], [], _, y, hy => by simp at hy
+  | a :: as, b :: bs, h, y, hy => by
+    rcases List.mem_cons.mp hy with rfl | hm
+    · exact ⟨a, List.mem_cons_self, h.1⟩
+    · obtain ⟨x, hx, hr⟩ := AllPairs.right_mem h.2 y hm
+      exact ⟨x, List.mem_cons_of_mem _ hx, hr⟩
+  | [], _ :: _, h, _, _ => h.elim
+  | _ :: _, [], h, _, _ => h.elim
+
+theorem mapM_forall2 {α β : Type} {f : α → Option β} : ∀ {xs : List α} {ys : List β},
+    xs.mapM f = some ys → AllPairs (fun x y => f x = some y) xs ys := by
+  intro xs
+  induction xs with
+  | nil => intro ys h; simp at h; subst h; exact trivial
+  | cons x xs ih =>
+    intro ys h
+    rw [List.mapM_cons] at h
+    cases hx : f x with
+    | none => simp [hx] at h
+    | some y =>
+      cases hxs : xs.mapM f with
+      | none => simp [hx, hxs] at h
+      | some ys' =>
+        simp [hx, hxs] at h
+        subst h
+        exact ⟨hx, ih hxs⟩
+
+/-- **per input**, in order: outpoint and sequence number byte for byte, and the script is the
+    cleared form of the original one; the number of inputs does not change -/
+theorem inputs_preserved (t t' : Tx) (h : unsignTx t = some t') :
+    AllPairs (fun i i' => i'.prevHash = i.prevHash ∧ i'.prevN = i.prevN ∧ i'.seq = i.seq ∧
+      clearScript i.script = some i'.script) t.vin t'.vin := by
+  unfold unsignTx at h
+  cases hm : t.vin.mapM clearIn with
+  | none => simp [hm] at h
+  | some vin =>
+    simp [hm] at h; subst h
+    refine AllPairs.imp ?_ (mapM_forall2 hm)
+    intro i i' hi
+    unfold clearIn at hi
+    cases hc : clearScript i.script with
+    | none => simp [hc] at hi
+    | some s => simp [hc] at hi; subst hi; simp
+
+/-- **shape of the relayed script**: `n - 1` empty pushes followed by the original last
+    operation, re-encoded canonically; and it decodes to exactly those `n` operations -/
+theorem script_shape (s s' : Bytes) (h : clearScript s = some s') :
+    ∃ ops l, elems s = some ops ∧ ops.getLast? = some l ∧
+      s' = List.replicate (ops.length - 1) (0 : UInt8) ++ l.encode ∧
+      elems s' = some (List.replicate (ops.length - 1) Elem.zero ++ [canon l]) := by
+  unfold clearScript at h
+  cases he : elems s with
+  | none => simp [he] at h
+  | some ops =>
+    cases hl : ops.getLast? with
+    | none => simp [he, hl] at h
+    | some l =>
+      simp [he, hl] at h
+      refine ⟨ops, l, rfl, hl, h.symm, ?_⟩
+      rw [← h, elems_zeros, elems_encode l (elems_wf s ops he l (List.mem_of_getLast? hl))]
+      rfl
+
+theorem canon_encode (l : Elem) : (canon l).encode = l.encode := by
+  cases l with
+  | zero => rfl
+  | op c => rfl
+  | push d => cases d <;> rfl
+
+/-- **applying the transformation again changes nothing** -/
+theorem clear_idempotent (s s' : Bytes) (h : clearScript s = some s') : clearScript s' = some s' := by
+  obtain ⟨ops, l, _, hl, hs', he'⟩ := script_shape s s' h
+  have hne : ops ≠ [] := by intro h0; subst h0; simp at hl
+  have hlen : ops.length - 1 + 1 = ops.length := by
+    have := List.length_pos_iff.mpr hne; omega
+  unfold clearScript
+  rw [he']
+  simp only [List.getLast?_append, List.getLast?_singleton, Option.some_or, List.length_append,
+    List.length_replicate, List.length_singleton, Nat.add_sub_cancel, canon_encode]
+  rw [hs']
+
+/-- **the result does not depend on which signatures were already present**: two scripts with
+    the same number of operations and the same last operation are cleared to the same bytes -/
+theorem signature_independent (s₁ s₂ : Bytes) (ops₁ ops₂ : List Elem)
+    (h1 : elems s₁ = some ops₁) (h2 : elems s₂ = some ops₂)
+    (hlen : ops₁.length = ops₂.length) (hlast : ops₁.getLast? = ops₂.getLast?) :
+    clearScript s₁ = clearScript s₂ := by
+  unfold clearScript
+  rw [h1, h2]
+  simp only [hlen, hlast]
+
+/-- a script is refused exactly when it cannot be decoded or is empty -/
+theorem clear_refuses_iff (s : Bytes) :
+    clearScript s = none ↔ elems s = none ∨ elems s = some [] := by
+  unfold clearScript
+  cases he : elems s with
+  | none => simp
+  | some ops =>
+    cases ops with
+    | nil => simp
+    | cons o os =>
+      have : (o :: os).getLast? = some ((o :: os).getLast (by simp)) := List.getLast?_eq_some_getLast _
+      simp [this]
+
+theorem mapM_none_iff {α β : Type} {f : α → Option β} : ∀ {xs : List α},
+    xs.mapM f = none ↔ ∃ x ∈ xs, f x = none := by
+  intro xs
+  induction xs with
+  | nil => simp
+  | cons x xs ih =>
+    rw [List.mapM_cons]
+    cases hx : f x with
+    | none => simp [hx]
+    | some y =>
+      cases hxs : xs.mapM f with
+      | none =>
+        have := ih.mp hxs
+        obtain ⟨z, hz, hfz⟩ := this
+        simp only [Option.bind_eq_bind, Option.bind_some, Option.bind_none, List.mem_cons, true_iff]
+        exact ⟨z, Or.inr hz, hfz⟩
+      | some ys =>
+        simp only [Option.bind_eq_bind, Option.bind_some, Option.pure_def, List.mem_cons]
+        constructor
+        · intro h; cases h
+        · rintro ⟨z, hz | hz, hfz⟩
+          · subst hz; rw [hx] at hfz; cases hfz
+          · have := ih.mpr ⟨z, hz, hfz⟩
+            rw [hxs] at this; cases this
+
+/-- **a transaction is refused exactly when some input script cannot be decoded or is empty** -/
+theorem unsign_refuses_iff (t : Tx) :
+    unsignTx t = none ↔ ∃ i ∈ t.vin, elems i.script = none ∨ elems i.script = some [] := by
+  unfold unsignTx
+  rw [Option.map_eq_none_iff, mapM_none_iff]
+  constructor
+  · rintro ⟨i, hi, h⟩
+    refine ⟨i, hi, (clear_refuses_iff _).mp ?_⟩
+    unfold clearIn at h
+    simpa using h
+  · rintro ⟨i, hi, h⟩
+    refine ⟨i, hi, ?_⟩
+    unfold clearIn
+    rw [(clear_refuses_iff _).mpr h]
+    rfl
+
+theorem mapM_self {α : Type} {f : α → Option α} : ∀ {xs : List α},
+    (∀ x ∈ xs, f x = some x) → xs.mapM f = some xs := by
+  intro xs
+  induction xs with
+  | nil => intro _; simp
+  | cons x xs ih =>
+    intro h
+    rw [List.mapM_cons, h x List.mem_cons_self, ih fun y hy => h y (List.mem_cons_of_mem _ hy)]
+    rfl
+
+/-- **idempotence at transaction level**: the relayed form is a fixed point -/
+theorem unsign_idempotent (t t' : Tx) (h : unsignTx t = some t') : unsignTx t' = some t' := by
+  have hin := inputs_preserved t t' h
+  unfold unsignTx
+  have : t'.vin.mapM clearIn = some t'.vin := by
+    apply mapM_self
+    intro i' hi'
+    obtain ⟨i, _, hi⟩ := AllPairs.right_mem hin i' hi'
+    unfold clearIn
+    rw [clear_idempotent _ _ hi.2.2.2]
+    rfl
+  rw [this]
+  rfl
+
+/-- non-vacuity: a 2-of-3 multisig script-sig (OP_0, two signatures, PUSHDATA1 redeem script)
+    and the same with the signatures missing are cleared to the same bytes, a fixed point -/
+example :
+    let redeem : Bytes := List.replicate 80 0xAB
+    let signed : Bytes := [0] ++ pushData (List.replicate 71 1) ++ pushData (List.replicate 72 2) ++ pushData redeem
+    let blank : Bytes := [0, 0, 0] ++ pushData redeem
+    clearScript signed = some blank ∧ clearScript blank = some blank := by
+  decide +kernel
 
 end Props.C14
 end PowHsm
